@@ -954,7 +954,18 @@ class Exec(object):
                 return fmt % arg
             self.hex_hint(arg)
             return SText("hexnum", v=arg, width=int(m.group(1)), pad=0)
-        # any other formatting only builds messages
+        # any other formatting only builds messages - except that CPython >= 3.11 refuses to write an integer of more than
+        # sys.get_int_max_str_digits() (default 4300) decimal digits: `"%d" % v` raises ValueError for such a v
+        convs = [c for c in re.findall(r"%[#0\- +]*\d*(?:\.\d+)?([a-zA-Z%])", fmt) if c != "%"]
+        targs = arg if isinstance(arg, tuple) else (arg,)
+        if len(convs) == len(targs):
+            for cv, a in zip(convs, targs):
+                if cv in "dirs" and isinstance(a, SInt):
+                    lim = SInt(z3.IntVal(10 ** 2150) * z3.IntVal(10 ** 2150))      # 10**4300, written without a 4301-digit literal (the limit applies to this process too)
+                    self.assumptions.add("decimal formatting of an integer raises ValueError from 4300 digits on (CPython >= 3.11 default limit)")
+                    if not self.entails(And_(a < lim, a > -lim)):
+                        if not self.branch_pruned(And_(a < lim, a > -lim)):
+                            self.raise_("ValueError", line)
         try:
             if not isinstance(arg, tuple):
                 arg = (arg,)
